@@ -10,6 +10,7 @@ import (
 	"net"
 	"strings"
 	"testing"
+	"time"
 
 	kcp "github.com/xtaci/kcp-go/v5"
 	"pgregory.net/rapid"
@@ -29,8 +30,10 @@ func TestC15Close(t *testing.T) {
 		order := rapid.Permutation([]int{0, 1, 2, 3, 4}).Draw(rt, "closeOrder")
 		gaps := rapid.SliceOfN(rapid.SampledFrom([]int{0, 0, 1, 15, 200}), 5, 5).Draw(rt, "closeGaps")
 		extraPeers := 0
+		pollAccepts, polled := 0, 0
 		if cfg.Listener {
 			extraPeers = rapid.IntRange(0, 3).Draw(rt, "unacceptedPeers")
+			pollAccepts = rapid.SampledFrom([]int{0, 0, 1, 2, 4}).Draw(rt, "pollAccepts")
 		}
 		stallReader := rapid.IntRange(0, 3).Draw(rt, "stallReader") == 0
 		if stallReader {
@@ -53,6 +56,7 @@ func TestC15Close(t *testing.T) {
 			// peers the application never accepts; they connect once the pair's own
 			// session has been accepted (so that Accept returns the pair's session)
 			var extras []*kcp.UDPSession
+			var polledSess []*kcp.UDPSession // sessions handed out by the polling Accept calls
 			var extraConns []*sim.PConn
 			makeExtras := func() {
 				for i := len(extras); i < extraPeers; i++ {
@@ -68,7 +72,7 @@ func TestC15Close(t *testing.T) {
 			defer func() {
 				// whatever happens, leave the bubble clean
 				p.Finish(nil)
-				for _, x := range extras {
+				for _, x := range append(extras, polledSess...) {
 					x.Close()
 				}
 				for _, c := range extraConns {
@@ -109,6 +113,24 @@ func TestC15Close(t *testing.T) {
 			}
 			makeExtras()
 			s.Quiesce()
+			// an application that polls: Accept with a deadline that has already
+			// passed while peers are waiting. Each call may hand out a session
+			// (ours to close from then on) or time out - but a session it does not
+			// hand out must stay where Listener.Close will find it
+			if p.L != nil && pollAccepts > 0 {
+				p.L.SetReadDeadline(s.Start.Add(time.Duration(s.Now()-1) * time.Millisecond))
+				for i := 0; i < pollAccepts; i++ {
+					c := s.Go("Accept(poll)", func() (int, error, any) { x, err := p.L.AcceptKCP(); return 0, err, x })
+					s.Quiesce()
+					if c.Done() && c.Err == nil {
+						if x, ok := c.Val.(*kcp.UDPSession); ok && x != nil {
+							polledSess = append(polledSess, x)
+							polled++
+						}
+					}
+				}
+				p.L.SetReadDeadline(time.Time{})
+			}
 			midTransfer = !p.Complete()
 			blockedAtClose = len(s.BlockedCalls())
 			if writeErrAt >= 0 {
@@ -125,7 +147,7 @@ func TestC15Close(t *testing.T) {
 				}
 			}
 			p.CloseLateAccept()
-			for _, x := range extras {
+			for _, x := range append(extras, polledSess...) {
 				x.Close()
 			}
 			for _, c := range extraConns {
@@ -156,6 +178,9 @@ func TestC15Close(t *testing.T) {
 		}
 		if blockedAtClose > 0 {
 			cl = append(cl, "closed_with_blocked_callers")
+		}
+		if pollAccepts > 0 {
+			cl = append(cl, "accept_polled_with_an_expired_deadline")
 		}
 		if extraPeers > 0 {
 			cl = append(cl, "closed_with_unaccepted_sessions")
